@@ -156,6 +156,18 @@ func TestVfC13Framing(t *testing.T) {
 					ceiling++
 				}
 			}
+			if over := len(EncodeMsg(m)) - 65535; over > 0 {
+				// the OPT came on top of a padding that already filled the frame: a query is at most 65535 octets
+				for j := range m.Ar {
+					if m.Ar[j].Type == 65280 && len(m.Ar[j].RData) == 1 && len(m.Ar[j].RData[0].Raw) > over {
+						m.Ar[j].RData[0].Raw = m.Ar[j].RData[0].Raw[over:]
+						break
+					}
+				}
+			}
+			if len(EncodeMsg(m)) > 65535 {
+				vfkit.Inconclusive("C13: the harness built a query of %d octets", len(EncodeMsg(m)))
+			}
 			qs[i] = qinfo{id: m.ID, name: name, tok: tok, wire: EncodeMsg(m)}
 			bounds = append(bounds, len(stream))
 			stream = append(stream, frame(qs[i].wire)...)
